@@ -1,0 +1,8 @@
+//go:build verif
+
+package ast
+
+// VerifMode returns the lexer mode flags for the verification harness.
+func (lex *LexScanner) VerifMode() (expectSymbol, expectMetadata bool) {
+	return lex.expectSymbol, lex.expectMetadata
+}
